@@ -62,6 +62,11 @@ chk("C12", "model_checking", "complete reachable-state graph by BFS with O(1) st
     "Trusted: refcodec for header decoding, refregion for the set of defined rates, the Session serde restore (C20 checks it). Frame counters are normalised in the state key (argued irrelevant to this property).",
     "DESIGN.md §3 C12")
 
+chk("C08", "model_checking", "exhaustive command-value sweep over short histories on the real device, executable reference MAC model as oracle",
+    "Each case is a history on a fresh real device: base state, 0-2 prior command downlinks, the judged downlink (FOpts or port 0), two uplinks, an acknowledging downlink, one more uplink. The judged streams cover the full value domain of every request the statement lists, LinkADRReq blocks, answer-budget overflows at every position and Class C deliveries. The reference model (refmac over refregion) checks: one answer per handled request in order, whole commands, only trailing answers dropped; each fully acknowledged request changed exactly the commanded fields of the MAC snapshot and each refused one changed nothing (the model replays the device's own answers); unambiguously invalid requests carry a negative bit; sticky answers repeat until an accepted Class A downlink, others are sent once; Class C receptions neither execute nor clear.",
+    "Trusted: refmac.rs / refregion.rs. Where RP002 leaves room either answer is accepted. nb runs the full domain, async a stride of it (shared MAC code).",
+    "DESIGN.md §3 C08")
+
 ALL = ["C%02d" % i for i in range(1, 21)]
 NA_REASON = "check not built yet in this round; see DESIGN.md for the planned bounded exploration"
 
